@@ -2,6 +2,7 @@ package data
 
 import (
 	"fmt"
+	"math"
 	"reflect"
 	"time"
 	"unicode"
@@ -50,6 +51,11 @@ func NewWith(convert StructOptions, value interface{}) Value {
 	case reflect.Int, reflect.Int8, reflect.Int16, reflect.Int32, reflect.Int64:
 		return Int(v.Int())
 	case reflect.Uint, reflect.Uint8, reflect.Uint16, reflect.Uint32, reflect.Uint64:
+		if u := v.Uint(); u > math.MaxInt64 {
+			// Int is an int64: Int(u) would wrap to a negative number. Use the
+			// nearest Float, which is what decoding the number from JSON gives.
+			return Float(u)
+		}
 		return Int(v.Uint())
 	case reflect.Float32, reflect.Float64:
 		return Float(v.Float())
